@@ -98,6 +98,15 @@ def extra_macro_corpus(tier, seed):
     return dict(violations=viol, coverage=dict(programs=checked, disagreements_checked=len(viol), macro_samples=samples))
 
 
+def extra_metrics_probe(tier, seed):
+    """C20: wall-clock scenarios on a metrics build: counts exact, durations by inequality."""
+    bins = vlib.build_harness(("metrics",), bins=("director", "metrics_probe"))
+    n = 40 if tier == "quick" else 400
+    out = vlib.sh([bins["metrics_probe"], str(seed), str(n)], timeout=1200, check=True).stdout.splitlines()
+    viol = [dict(what="metrics probe failed", scenario=l, replay_cmd="metrics_probe %d %d" % (seed, n)) for l in out if l.startswith("FAIL")]
+    return dict(violations=viol, coverage=dict(metrics_scenarios=len(out), metrics_sample=out[:2]))
+
+
 PROPS = {
     "C01": dict(
         props_file="Props/C01.v",
@@ -155,6 +164,13 @@ PROPS = {
         extra=[extra_macro_corpus],
         level_text="The macro's decision table is proved for every signature/attribute in the Coq model (Props/C19.v); the model is tied to the real proc macros by compiling and running a generated corpus crate (positive cases, hand-written on_tell_result counters, derive cases, compile-fail negatives) and comparing every case with the extracted decide function; the run-time half (on_tell_result once per tell, never per ask) is a theorem about the actor loop model, tied by the director scripts.",
         level_note="rustc and the macro expansion are exercised, not modelled; the corpus is finite (the table theorem is not).",
+    ),
+    "C20": dict(
+        props_file="Props/C20.v",
+        families=[("core", ("metrics",), 150), ("fault", ("metrics",), 100)],
+        projection="C20", monitors=["C04"],
+        extra=[extra_metrics_probe],
+        level_note="Counts are proved and compared exactly; real durations are wall-clock values compared by inequality only (max >= a handler's own measured time, avg <= max, snapshot = accessors) - partial for the duration clauses.",
     ),
     "C04": dict(
         props_file="Props/C04.v",
